@@ -1945,6 +1945,14 @@ func (it *Interp) inlineMethod(recv *Loc, name string, call *ast.CallExpr) Value
 		it.undecided(call.Pos(), "inlining depth exceeded at %s", name)
 	}
 	fd := FindMethod(it.cfg.Pkg, it.cfg.TypeName, name)
+	if fd == nil && len(call.Args) == 1 && (name == "Greater" || name == "Smaller") {
+		// the scalar type is defined in another package: the order tests are the order of the values
+		op := token.GTR
+		if name == "Smaller" {
+			op = token.LSS
+		}
+		return it.compare(op, recv, it.eval(call.Args[0]), call.Pos())
+	}
 	if fd == nil {
 		it.undecided(call.Pos(), "no body for %s.%s", it.cfg.TypeName, name)
 	}
